@@ -316,6 +316,12 @@ def drive_xyz_rt(r, d):
     wexc, data = "", b""
     try:
         m, _ = build(r["atoms"], nl, r["gb"])
+        if r.get("sdf_first"):
+            # the same molecule object has been written in the other format before (writing must not change the molecule)
+            try:
+                m.to_sdf_string()
+            except Exception:  # noqa: BLE001
+                pass
         if r["route"] == "string":
             data = m.to_xyz_string().encode("latin-1", "replace")
         else:
@@ -512,13 +518,17 @@ def make_recipes(ctx):
                     "atoms": [[26, [a, b, c]] for a, b, c in zip(XYZ_EDGE, XYZ_EDGE[1:] + XYZ_EDGE[:1], XYZ_EDGE[2:] + XYZ_EDGE[:2])]})
     for i in range(n_xyz):
         nl = 4 if i % 6 == 5 else 3
-        cls = rng.choice(["typical", "typical", "mid", "edge", "wide"])
+        cls = rng.choice(["typical", "typical", "mid", "edge", "wide", "planar"])
         chain = nl == 3 and rng.random() < 0.3
         n = sizes(rng, big)
-        atoms = gen_atoms(rng, n, cls, nl, xyz_coord, chain=chain)
+        atoms = gen_atoms(rng, n, cls if cls != "planar" else "typical", nl, xyz_coord, chain=chain)
+        if cls == "planar" and nl == 3:
+            # a nearly planar molecule: z components between 1e-12 and 5e-5 A
+            for a in atoms:
+                a[1][2] = rng.choice([1, -1]) * rng.choice([1, rng.randint(1, 5 * 10 ** 7), rng.randint(10 ** 5, 5 * 10 ** 7)])
         route = rng.choice(["string", "file"])
         ext = ".xyz" if route == "string" else rng.choice([".xyz", ".xyz", ".XYZ", "xyz", ".Xyz"])
-        recipes.append({"k": "xyz_rt", "nl": nl, "route": route, "ext": ext, "gb": chain, "atoms": atoms})
+        recipes.append({"k": "xyz_rt", "nl": nl, "route": route, "ext": ext, "gb": chain, "atoms": atoms, "sdf_first": rng.random() < 0.5})
     # ---- XYZ spellings
     blanks = lambda lo, hi: "".join(rng.choice(" \t") if rng.random() < 0.5 else " " for _ in range(rng.randint(lo, hi)))  # noqa: E731
     for i in range(n_spell):
